@@ -237,6 +237,7 @@ func main() {
 			defer wg.Done()
 			env := []string{
 				"VERIF_PROP=" + *propID,
+				"VERIF_TIER=" + *tier,
 				fmt.Sprintf("VERIF_SEED_START=%d", start+uint64(i)),
 				fmt.Sprintf("VERIF_SEED_STRIDE=%d", W),
 				"VERIF_SEED_COUNT=100000000",
@@ -288,7 +289,7 @@ func main() {
 				defer dwg.Done()
 				path := filepath.Join(tmp, fmt.Sprintf("det%d.jsonl", pi))
 				// seeds are start, start+1, ... (contiguous across the original workers)
-				env := []string{"VERIF_PROP=" + *propID, fmt.Sprintf("VERIF_SEED_START=%d", start), "VERIF_SEED_STRIDE=1",
+				env := []string{"VERIF_PROP=" + *propID, "VERIF_TIER=" + *tier, fmt.Sprintf("VERIF_SEED_START=%d", start), "VERIF_SEED_STRIDE=1",
 					fmt.Sprintf("VERIF_SEED_COUNT=%d", nDet), "VERIF_OUT=" + path, fmt.Sprintf("VERIF_GOMAXPROCS=%d", gmp)}
 				_, err := runWorker(env, 10*time.Minute)
 				rs := readReports(path)
@@ -370,7 +371,7 @@ func main() {
 		h := newByClass[c]
 		safe := strings.NewReplacer("/", "_", " ", "_").Replace(c)
 		path := filepath.Join(verif, "replays", fmt.Sprintf("%s-%s-%d.json", *propID, safe, h.rep.Seed))
-		env := []string{"VERIF_PROP=" + *propID, fmt.Sprintf("VERIF_MINIMISE=%d", h.rep.Seed), "VERIF_CLASS=" + c, "VERIF_REPLAY_OUT=" + path}
+		env := []string{"VERIF_PROP=" + *propID, "VERIF_TIER=" + *tier, fmt.Sprintf("VERIF_MINIMISE=%d", h.rep.Seed), "VERIF_CLASS=" + c, "VERIF_REPLAY_OUT=" + path}
 		out, err := runWorker(env, 15*time.Minute)
 		if err != nil {
 			fmt.Fprintf(os.Stderr, "runner: minimisation of seed %d class %s failed: %v\n%s\n", h.rep.Seed, c, err, out)
@@ -378,7 +379,7 @@ func main() {
 			continue
 		}
 		// fresh-process confirmation
-		out, err = runWorker([]string{"VERIF_REPLAY=" + path}, 10*time.Minute)
+		out, err = runWorker([]string{"VERIF_REPLAY=" + path, "VERIF_TIER=" + *tier}, 10*time.Minute)
 		if err != nil || !strings.Contains(out, "REPRODUCED property=") || strings.Contains(out, "NOT-REPRODUCED") {
 			fmt.Fprintf(os.Stderr, "runner: replay %s did not reproduce in a fresh process: %v\n%s\n", path, err, out)
 			nondet = true
